@@ -40,7 +40,7 @@ Rec ==
   /\ E = "Rec" /\ Line.r \in Recorders /\ rstate[Line.r] = "open" /\ Line.t \in Threads /\ Line.k \in Kinds
   /\ IF Line.k = "E" THEN DepthOf(KindsOf(rec[Line.r][Line.t])) > 0 ELSE Line.name # ""
   /\ rec' = [rec EXCEPT ![Line.r][Line.t] = Append(@, Ev(Line.k, Line.name, IF Line.k \in {"B", "i"} THEN Line.cat ELSE "",
-                                                       IF Line.k = "C" THEN Line.val ELSE 0))]
+                                                       IF Line.k = "C" THEN Line.val ELSE NoVal))]
   /\ rstate' = rstate
 LogOf(a) == [i \in DOMAIN a |-> [tid |-> a[i][1], ph |-> a[i][2], name |-> a[i][3], cat |-> a[i][4], val |-> a[i][5]]]
 Save ==
